@@ -432,6 +432,9 @@ func unmarshalDynamic(buf []byte, path cty.Path) (cty.Value, error) {
 	if t == cty.NilType {
 		return cty.NilVal, path.NewErrorf("missing type in dynamically-typed value")
 	}
+	// Optional-attribute annotations are meaningful only for type constraints
+	// used in conversion, never for the type of a value.
+	t = t.WithoutOptionalAttributesDeep()
 	if valBody == nil {
 		return cty.NilVal, path.NewErrorf("missing value in dynamically-typed value")
 	}
